@@ -38,7 +38,7 @@ theorem CrossCtx.headRoom (c : CrossCtx bits ab rb rs lsh H a) : HeadRoom bits a
 theorem crossInner_spec (c : CrossCtx bits ab rb rs lsh H a) {K : Int} {q aLimb : Nat} :
     ∀ (fuel : Nat) (st : CrossSt), CInv ab rb rs lsh H a K q aLimb true st → st.aTakeLeft < fuel →
       (aLimb ≠ 0 ∧ CCont ab rb rs lsh H a K q aLimb (crossInner bits ab rb aLimb fuel st)) ∨
-      CFull rb rs K (crossInner bits ab rb aLimb fuel st) ∨
+      CFull rb rs K q (crossInner bits ab rb aLimb fuel st) ∨
       (aLimb = 0 ∧ CFlush rb rs H K q (crossInner bits ab rb aLimb fuel st)) := by
   intro fuel
   induction fuel with
@@ -121,7 +121,7 @@ theorem cross_next_limb (c : CrossCtx bits ab rb rs lsh H a) {K : Int} {q aLimb 
     exact c.ha _ this
   obtain ⟨hv, hbal, hcb⟩ := cross_middle c hx h.ac
   have hab1 : 1 ≤ ab := by have := c.hlsh; omega
-  refine ⟨h.len, h.lim, h.ral2, le_refl _, ?_, h.nd, h.ns, h.rc0, ?_, hcb, h.cur, h.zer, h.lims, ?_, ?_⟩
+  refine ⟨h.len, h.lim, h.ral2, le_refl _, ?_, h.nd, h.ns, h.rc0, ?_, hcb, h.cur, h.zer, h.lims, ?_, ?_, (by intro h'; cases h')⟩
   · simp only [if_true]; exact ⟨h.ral1, hab1⟩
   · simp only
     have := hbal.abs_le
